@@ -104,3 +104,11 @@ Proof.
   - repeat constructor; cbn; intuition discriminate.
   - repeat constructor; cbn; intuition discriminate.
 Qed.
+
+(* a Language value either is one of the declared constants or is not *)
+Lemma classic_supported l : (exists name, supported name l) \/ (forall name, ~ supported name l).
+Proof.
+  destruct (find (fun c => Z.eqb (snd c) l) lang_consts) as [[nm v]|] eqn:E.
+  - left. apply find_some in E as [Hin Hv]. cbn [snd] in Hv. apply Z.eqb_eq in Hv. subst v. exists nm. exact Hin.
+  - right. intros name Hs. pose proof (find_none _ _ E _ Hs) as K. cbn [snd] in K. rewrite Z.eqb_refl in K. discriminate.
+Qed.
